@@ -21,9 +21,126 @@ type c16Removal struct {
 type c16MultiG struct {
 	*c16G
 	fReaders FieldID
+	// isList, if set, replaces "load of the readers field" as the notion of "the
+	// list" (used to run the loop recognition over a local literal slice).
+	isList func(v c16V) bool
 }
 
-func (m *c16MultiG) isReadersLoad(v c16V) bool { return m.IsFieldLoad(v, m.fReaders) }
+func (m *c16MultiG) isReadersLoad(v c16V) bool {
+	if m.isList != nil {
+		return m.isList(v)
+	}
+	return m.IsFieldLoad(v, m.fReaders)
+}
+
+// c16LiteralElems: v is a slice of a local array literal ([]T{a, b, …}); returns
+// the element values (interface wrapping removed).
+func (g *c16G) c16LiteralElems(v c16V) ([]c16V, bool) {
+	v = g.Val(v)
+	sl, ok := v.V.(*ssa.Slice)
+	if !ok || sl.Low != nil || sl.High != nil {
+		return nil, false
+	}
+	al, ok := sl.X.(*ssa.Alloc)
+	if !ok {
+		return nil, false
+	}
+	var elems []c16V
+	for _, rr := range refs(al) {
+		switch x := rr.(type) {
+		case *ssa.Slice:
+		case *ssa.IndexAddr:
+			if _, isK := c16IntConst(x.Index); !isK {
+				return nil, false
+			}
+			for _, r2 := range refs(x) {
+				st, isStore := r2.(*ssa.Store)
+				if !isStore || st.Addr != ssa.Value(x) {
+					return nil, false
+				}
+				e := st.Val
+				if mi, isMI := e.(*ssa.MakeInterface); isMI {
+					e = mi.X
+				}
+				elems = append(elems, g.Val(c16V{e, v.Ctx}))
+			}
+		default:
+			return nil, false
+		}
+	}
+	return elems, len(elems) > 0
+}
+
+// c16LiteralLoopsClosing finds counting loops over a local literal slice one of
+// whose elements satisfies want, that run over all its indices, cannot be left
+// early and in every iteration close the current element if it is a Closer.
+// Returns the first instruction occurrence after each such loop: there, every
+// element has been closed-if-Closer.
+func c16LiteralLoopsClosing(g *c16G, want func(c16V) bool) map[c16N]bool {
+	out := map[c16N]bool{}
+	lm := &c16MultiG{c16G: g}
+	lm.isList = func(v c16V) bool {
+		elems, ok := g.c16LiteralElems(v)
+		if !ok {
+			return false
+		}
+		for _, e := range elems {
+			if want(e) {
+				return true
+			}
+		}
+		return false
+	}
+	for _, lp := range lm.readerLoops() {
+		if lp.Why != "" || len(lp.Exit.Ns) == 0 {
+			continue
+		}
+		isElem := func(v c16V) bool {
+			idx, ok := lm.elemIndex(v)
+			return ok && idx == lp.Idx
+		}
+		hdr := lp.Header.Ns[0]
+		ff := &c16Flow{G: g, Entry: 0,
+			Transfer: func(n c16N, s uint32) uint32 {
+				if n == hdr {
+					s = 0
+				}
+				if lm.closeOf(n, isElem) {
+					s |= 1
+				}
+				return s
+			},
+			Edge: func(conds []c16C, s uint32) (uint32, bool) {
+				for _, c := range conds {
+					if x, truth, ok := g.AssertOk(c); ok && !truth && isElem(x) {
+						s |= 1
+					}
+				}
+				return s, true
+			}}
+		ff.Run()
+		good := true
+		for _, b := range g.Blocks {
+			if !lp.Blocks[b] {
+				continue
+			}
+			for _, s := range b.Succs {
+				switch {
+				case s == lp.Header:
+					if c16AnyState(ff.OutEdge(b, s), func(x uint32) bool { return x&1 == 0 }) {
+						good = false
+					}
+				case !lp.Blocks[s] && !(b == lp.Header && s == lp.Exit):
+					good = false // early exit
+				}
+			}
+		}
+		if good && len(lp.Exit.Preds) == 1 {
+			out[lp.Exit.Ns[0]] = true
+		}
+	}
+	return out
+}
 
 // elemIndex: v is element i of the readers slice: *(&S[i]) with S a load of readers.
 func (m *c16MultiG) elemIndex(v c16V) (c16V, bool) {
@@ -143,7 +260,7 @@ func c16Multi(c *Ctx) {
 		if g.Esc == "" {
 			g.Esc = g.Escapes(fReaders, false)
 		}
-		return &c16MultiG{g, fReaders}
+		return &c16MultiG{c16G: g, fReaders: fReaders}
 	}
 
 	c16MultiRead(c, mk(read))
@@ -1201,8 +1318,15 @@ func c16Tee(c *Ctx) {
 		gc := c16Build(p, closeFn)
 		gc.Esc = gc.Escapes(fr, false)
 		isR := func(v c16V) bool { return gc.IsFieldLoad(v, fr) }
+		afterLiteralLoop := c16LiteralLoopsClosing(gc, isR)
+		if len(afterLiteralLoop) > 0 {
+			gc.Esc = "" // the local aggregate the source was put into is understood
+		}
 		fc := &c16Flow{G: gc, Entry: 0,
 			Transfer: func(n c16N, s uint32) uint32 {
+				if afterLiteralLoop[n] {
+					s |= 1
+				}
 				if gc.MethodCall(n, "Close", func(v c16V) bool {
 					if isR(v) {
 						return true
@@ -1236,6 +1360,32 @@ func c16Tee(c *Ctx) {
 				bad = gc.Pos(ret)
 			}
 		})
+		// an exit guarded by a fact about another field of the wrapper (a closed /
+		// stopped flag in value+flag form) may be the "already closed" case
+		if bad.IsValid() {
+			for _, eb := range gc.Exits {
+				for _, set := range gc.CondSets(eb, 3) {
+					for _, c := range set {
+						vals := []c16V{}
+						if cmp, ok := gc.Cmp(c); ok {
+							vals = append(vals, cmp.X, cmp.Y)
+						} else if cv, _ := gc.BoolCond(c); cv.V != nil {
+							vals = append(vals, cv)
+						}
+						for _, v := range vals {
+							v = gc.Val(v)
+							if u, ok := v.V.(*ssa.UnOp); ok && u.Op == token.MUL {
+								if fa, ok := u.X.(*ssa.FieldAddr); ok && fieldIDOfAddr(fa) != fr {
+									if _, isB := u.Type().Underlying().(*types.Basic); isB {
+										gc.Unk(r, "%s has a return guarded by the flag field %s; whether it means 'already closed' is not decided", cname, fieldIDOfAddr(fa).Field)
+									}
+								}
+							}
+						}
+					}
+				}
+			}
+		}
 		c16Check(r, gc, !bad.IsValid() && n > 0, "C16.V4-tee-close", cname+" closes the source", p.Pos(c16PosOr(bad, closeFn.Pos())),
 			"every return of Close has closed the source reader if it is an io.Closer", "TeeReadCloser.Close can return without closing the source reader although it is an io.Closer")
 		cleared := false
